@@ -170,15 +170,16 @@ func (r *recorder) register(env *stick.Env, twigEnv bool) {
 }
 
 type renderCase struct {
-	Env   string                    `json:"env"`
-	Tpls  json.RawMessage           `json:"tpls"`
-	Srcs  json.RawMessage           `json:"srcs"`
-	Entry string                    `json:"entry"`
-	Ctx   json.RawMessage           `json:"ctx"`
-	Sp    Spelling                  `json:"sp"`
-	Fault struct{ Write, Load int } `json:"fault"`
-	Safe  bool                      `json:"safe"`
-	NoLog bool                      `json:"nolog"`
+	Env    string                    `json:"env"`
+	Tpls   json.RawMessage           `json:"tpls"`
+	Srcs   json.RawMessage           `json:"srcs"`
+	Entry  string                    `json:"entry"`
+	Ctx    json.RawMessage           `json:"ctx"`
+	Sp     Spelling                  `json:"sp"`
+	Fault  struct{ Write, Load int } `json:"fault"`
+	Safe   bool                      `json:"safe"`
+	NoLog  bool                      `json:"nolog"`
+	Inline bool                      `json:"inline"` // execute the entry template\'s source through the default StringLoader
 }
 
 func buildSources(c *renderCase) (map[string][]byte, error) {
@@ -251,17 +252,23 @@ func init() {
 		}
 		rec := &recorder{srcs: srcs, writeFail: c.Fault.Write, loadFail: c.Fault.Load, failedAt: -1}
 		var env *stick.Env
+		var loader stick.Loader = rec
+		entry := c.Entry
+		if c.Inline {
+			loader = nil
+			entry = string(srcs[c.Entry])
+		}
 		if c.Env == "twig" {
-			env = twig.New(rec)
+			env = twig.New(loader)
 		} else {
-			env = stick.New(rec)
+			env = stick.New(loader)
 		}
 		rec.register(env, c.Env == "twig")
 		var xerr error
 		if c.Safe {
-			xerr = env.ExecuteSafe(c.Entry, rec, ctx)
+			xerr = env.ExecuteSafe(entry, rec, ctx)
 		} else {
-			xerr = env.Execute(c.Entry, rec, ctx)
+			xerr = env.Execute(entry, rec, ctx)
 		}
 		obs := map[string]interface{}{
 			"status":     "ok",
